@@ -1,4 +1,4 @@
-(* C26 -- Jedynak 2015 (valid for both spellings of the code: with y or with |y| in the odd-degree terms) *)
+(* C26 -- Jedynak 2015: value, derivative, positive slope (valid for both spellings of the code: y or |y| in the odd-degree terms) *)
 From Coq Require Import Reals List Lra Psatz.
 From Coquelicot Require Import Coquelicot.
 From Interval Require Import Tactic.
@@ -20,8 +20,3 @@ Proof.
   - interval with (i_bisect y, i_depth 12).
 Qed.
 
-Lemma jedynak_inverts : inverts jedynak_f (1 / 20) (19 / 20) (5 / 1000).
-Proof.
-  intros y Hy. unfold jedynak_f, Lang. cbv zeta. try rewrite !(Rabs_right y) by lra.
-  interval with (i_bisect y, i_depth 18, i_prec 40).
-Qed.
